@@ -18,12 +18,18 @@ pub fn first_diff_field(a: &str, b: &str) -> String {
         i += 1;
     }
     // walk back to the last "ident:" before i
-    let prefix = &a[..i.min(a.len())];
+    let mut i = i.min(a.len());
+    while !a.is_char_boundary(i) {
+        i -= 1;
+    }
+    let prefix = &a[..i];
     if let Some(pos) = prefix.rfind(": ") {
         let before = &prefix[..pos];
         let start = before
-            .rfind(|c: char| !(c.is_alphanumeric() || c == '_'))
-            .map(|p| p + 1)
+            .char_indices()
+            .rev()
+            .find(|(_, c)| !(c.is_alphanumeric() || *c == '_'))
+            .map(|(p, c)| p + c.len_utf8())
             .unwrap_or(0);
         let f = &before[start..];
         if !f.is_empty() {
@@ -34,8 +40,10 @@ pub fn first_diff_field(a: &str, b: &str) -> String {
     if let Some(pos) = prefix.rfind('(') {
         let before = &prefix[..pos];
         let start = before
-            .rfind(|c: char| !(c.is_alphanumeric() || c == '_'))
-            .map(|p| p + 1)
+            .char_indices()
+            .rev()
+            .find(|(_, c)| !(c.is_alphanumeric() || *c == '_'))
+            .map(|(p, c)| p + c.len_utf8())
             .unwrap_or(0);
         return before[start..].to_string();
     }
